@@ -147,9 +147,10 @@ func (r reply) String() string {
 type conn struct {
 	dbapi api.DatabaseAPI
 
-	mu      sync.Mutex
-	replies []reply
-	sent    int
+	mu         sync.Mutex
+	replies    []reply
+	sent       int
+	sendYields int
 }
 
 func newConn() *conn {
@@ -159,6 +160,9 @@ func newConn() *conn {
 }
 
 func (c *conn) send(data []byte) {
+	for i := 0; i < c.sendYields; i++ {
+		runtime.Gosched()
+	}
 	raw := append([]byte(nil), data...)
 	r := reply{raw: raw}
 	parts := strings.SplitN(string(raw), "|", 3)
